@@ -1905,3 +1905,1120 @@ Proof.
   intros b s0 Hwf Hg Hb. apply (v1_wf_preserved b); auto. apply v1_store_ops_valid; auto.
 Qed.
 
+
+(* ==== PART 5: the seed progress file and the legend cache as instances of write_atomic ==== *)
+
+Lemma read_path_resolve : forall s s' p q, read_path s' p = read_path s q -> resolve s' p = resolve s q.
+Proof.
+  intros s s' p q H. unfold read_path in H.
+  destruct (resolve s' p), (resolve s q); try discriminate; [inversion H; reflexivity|reflexivity].
+Qed.
+
+Lemma progress_write_crash_safe : forall (A : Type) (unpickle : list Z -> option A) (empty : A) s p sfx d s',
+  In s' (crash_states s (progress_write_ops s p sfx d)) ->
+  (forall x, s p = Some (NLink x) -> x <> tmp_of p sfx) ->
+  progress_load unpickle empty s' p = progress_load unpickle empty s p \/
+  progress_load unpickle empty s' p = match unpickle d with Some st => st | None => empty end.
+Proof.
+  intros A unpickle empty s p sfx d s' H Hl. unfold progress_write_ops in H.
+  destruct (write_atomic_target s p sfx d s' H Hl) as [T|T].
+  - left. unfold progress_load. rewrite (read_path_resolve _ _ _ _ T). reflexivity.
+  - right. unfold progress_load. unfold read_path in T.
+    destruct (resolve s' p) as [c|]; [|discriminate]. inversion T; subst. reflexivity.
+Qed.
+
+Lemma progress_write_completes : forall (A : Type) (unpickle : list Z -> option A) (empty : A) s p sfx d,
+  snd (write_atomic_ops s p sfx d) = true ->
+  progress_load unpickle empty (apply_ops s (progress_write_ops s p sfx d)) p =
+  match unpickle d with Some st => st | None => empty end.
+Proof.
+  intros A unpickle empty s p sfx d H. unfold progress_write_ops, progress_load.
+  pose proof (write_atomic_completes s p sfx d H) as T. unfold read_path in T.
+  destruct (resolve (apply_ops s (fst (write_atomic_ops s p sfx d))) p) as [c|]; [|discriminate].
+  inversion T; subst. reflexivity.
+Qed.
+
+Lemma legend_store_crash_safe : forall s p sfx d s',
+  In s' (crash_states s (legend_store_ops s p sfx d)) ->
+  (forall x, s p = Some (NLink x) -> x <> tmp_of p sfx) ->
+  legend_load s' p = legend_load s p \/ legend_load s' p = RData d.
+Proof. intros. unfold legend_load. apply (write_atomic_target s p sfx d); assumption. Qed.
+
+(* non-vacuity: a progress file with old content [1], new content [2;3]: the four crash states load old, old, old, new
+   (identity "unpickle") *)
+Example progress_states_example :
+  let s := fs_of [([112], NFile [1])] in
+  map (fun s' => progress_load (fun d => Some d) [] s' [112]) (crash_states s (progress_write_ops s [112] [55] [2; 3])) =
+  [[1]; [1]; [1]; [1]; [1]; [2; 3]].
+Proof. vm_compute. reflexivity. Qed.
+
+(* ==== PART 6: batches that span several bundle files ==== *)
+
+
+(* ------------------------------------------------------------------------------------------------ *)
+(* Version 2                                                                                        *)
+
+Lemma mupd_same : forall st b f, mupd st b f b = f.
+Proof. intros st b f. unfold mupd. rewrite Z.eqb_refl. reflexivity. Qed.
+
+Lemma mupd_other : forall st b f x, x <> b -> mupd st b f x = st x.
+Proof. intros st b f x H. unfold mupd. apply Z.eqb_neq in H. rewrite H. reflexivity. Qed.
+
+Lemma m_apply_same : forall st o, m_apply st o (fst o) = bw_apply (st (fst o)) (snd o).
+Proof. intros st o. unfold m_apply. apply mupd_same. Qed.
+
+Lemma m_apply_other : forall st o x, x <> fst o -> m_apply st o x = st x.
+Proof. intros st o x H. unfold m_apply. apply mupd_other. exact H. Qed.
+
+Lemma v2_crash_states_head : forall ops f, In f (v2_crash_states f ops).
+Proof. intros ops f. destruct ops; left; reflexivity. Qed.
+
+Lemma m_proj_cons_same : forall b (o : mop) (r : list mop), fst o = b -> m_proj b (o :: r) = snd o :: m_proj b r.
+Proof.
+  intros b o r H. unfold m_proj. cbn [filter]. apply Z.eqb_eq in H. rewrite H. reflexivity.
+Qed.
+
+Lemma m_proj_cons_other : forall b (o : mop) (r : list mop), fst o <> b -> m_proj b (o :: r) = m_proj b r.
+Proof.
+  intros b o r H. unfold m_proj. cbn [filter]. apply Z.eqb_neq in H. rewrite H. reflexivity.
+Qed.
+
+Lemma m_proj_app : forall b l1 l2, m_proj b (l1 ++ l2) = m_proj b l1 ++ m_proj b l2.
+Proof. intros b l1 l2. unfold m_proj. rewrite filter_app, map_app. reflexivity. Qed.
+
+Lemma m_proj_tag_same : forall b (l : list bwrite), m_proj b (map (fun w => (b, w)) l) = l.
+Proof.
+  intros b l. induction l as [|w l IH]; [reflexivity|].
+  cbn [map]. rewrite m_proj_cons_same by reflexivity. cbn [snd]. rewrite IH. reflexivity.
+Qed.
+
+Lemma m_proj_tag_other : forall b b' (l : list bwrite), b' <> b -> m_proj b (map (fun w => (b', w)) l) = [].
+Proof.
+  intros b b' l H. induction l as [|w l IH]; [reflexivity|].
+  cbn [map]. rewrite m_proj_cons_other by (cbn [fst]; exact H). exact IH.
+Qed.
+
+(* (1) a crash state of the cache, seen through one bundle, is a crash state of that bundle under the
+   writes addressed to it *)
+Lemma m_crash_proj : forall ops st st' b,
+  In st' (m_crash_states st ops) -> In (st' b) (v2_crash_states (st b) (m_proj b ops)).
+Proof.
+  induction ops as [|o r IH]; intros st st' b Hin.
+  - cbn [m_crash_states] in Hin. destruct Hin as [E|[]]. subst st'. left. reflexivity.
+  - cbn [m_crash_states] in Hin. destruct Hin as [E|Hin].
+    { subst st'. apply v2_crash_states_head. }
+    apply in_app_or in Hin.
+    destruct (Z.eq_dec (fst o) b) as [E|E].
+    + rewrite (m_proj_cons_same b o r E). subst b. cbn [v2_crash_states]. right. apply in_or_app.
+      destruct Hin as [Hin|Hin].
+      * left. destruct (v2_tearable (st (fst o)) (snd o)); [|destruct Hin].
+        apply in_map_iff in Hin. destruct Hin as [k [Ek Hk]]. subst st'. rewrite mupd_same.
+        unfold bw_tears. apply in_map_iff. exists k. split; [reflexivity|exact Hk].
+      * right. apply (IH _ _ (fst o)) in Hin. rewrite m_apply_same in Hin. exact Hin.
+    + rewrite (m_proj_cons_other b o r E).
+      assert (E' : b <> fst o) by congruence.
+      destruct Hin as [Hin|Hin].
+      * destruct (v2_tearable (st (fst o)) (snd o)); [|destruct Hin].
+        apply in_map_iff in Hin. destruct Hin as [k [Ek Hk]]. subst st'.
+        rewrite mupd_other by exact E'. apply v2_crash_states_head.
+      * apply (IH _ _ b) in Hin. rewrite m_apply_other in Hin by exact E'. exact Hin.
+Qed.
+
+Lemma m_apply_all_proj : forall ops st b, m_apply_all st ops b = bw_apply_all (st b) (m_proj b ops).
+Proof.
+  induction ops as [|o r IH]; intros st b; [reflexivity|].
+  unfold m_apply_all. cbn [fold_left]. fold (m_apply_all (m_apply st o) r). rewrite IH.
+  destruct (Z.eq_dec (fst o) b) as [E|E].
+  - rewrite (m_proj_cons_same b o r E). subst b. rewrite m_apply_same. reflexivity.
+  - rewrite (m_proj_cons_other b o r E). rewrite m_apply_other by congruence. reflexivity.
+Qed.
+
+Lemma m_crash_states_last : forall ops st, In (m_apply_all st ops) (m_crash_states st ops).
+Proof.
+  induction ops as [|o r IH]; intros st; [left; reflexivity|].
+  cbn [m_crash_states]. right. apply in_or_app. right. apply IH.
+Qed.
+
+(* (2) crash safety per bundle, for any raw write sequence whose projections obey the v2 discipline *)
+Theorem m_crash_safe : forall (bt : Z -> batch) st ops st' b slot,
+  (forall x, v2_wf (st x)) ->
+  (forall x, v2_raw_ok (bt x) (flen (st x)) (st x) (m_proj x ops) = true) ->
+  (forall x s, has_data (bt x) s [] = false) ->
+  In st' (m_crash_states st ops) -> 0 <= slot < SLOTS ->
+  v2_read (st' b) slot = v2_read (st b) slot \/
+  exists dd, has_data (bt b) slot dd = true /\ dd <> [] /\ v2_read (st' b) slot = RData dd.
+Proof.
+  intros bt st ops st' b slot Hwf Hok Hne Hin Hs.
+  apply (v2_crash_safe_nonempty_batch (bt b) (st b) (m_proj b ops)); auto.
+  apply m_crash_proj. exact Hin.
+Qed.
+
+Corollary m_others_unaffected : forall (bt : Z -> batch) st ops st' b slot,
+  (forall x, v2_wf (st x)) ->
+  (forall x, v2_raw_ok (bt x) (flen (st x)) (st x) (m_proj x ops) = true) ->
+  In st' (m_crash_states st ops) -> 0 <= slot < SLOTS ->
+  (forall dd, has_data (bt b) slot dd = false) ->
+  v2_read (st' b) slot = v2_read (st b) slot.
+Proof.
+  intros bt st ops st' b slot Hwf Hok Hin Hs Hno.
+  apply (v2_others_unaffected (bt b) (st b) (m_proj b ops)); auto.
+  apply m_crash_proj. exact Hin.
+Qed.
+
+Theorem m_wf_preserved : forall (bt : Z -> batch) st ops,
+  (forall x, v2_wf (st x)) ->
+  (forall x, v2_raw_ok (bt x) (flen (st x)) (st x) (m_proj x ops) = true) ->
+  forall x, v2_wf (m_apply_all st ops x).
+Proof.
+  intros bt st ops Hwf Hok x. rewrite m_apply_all_proj.
+  apply (v2_wf_preserved (bt x)); auto.
+Qed.
+
+(* (3) the writes of the multi-bundle store that go to bundle b are exactly the writes of
+   BundleV2.store_tiles on the tiles of b *)
+Lemma m_store_proj : forall tiles st b,
+  m_proj b (m_store_ops st tiles) = v2_store_ops (st b) (m_batch_of b tiles).
+Proof.
+  induction tiles as [|[[b' slot] d] r IH]; intros st b; [reflexivity|].
+  cbn [m_store_ops]. cbv zeta. rewrite m_proj_app, IH, m_apply_all_proj.
+  unfold m_batch_of. cbn [filter fst snd].
+  destruct (Z.eq_dec b' b) as [E|E].
+  - subst b'. rewrite Z.eqb_refl. rewrite !m_proj_tag_same.
+    cbn [map fst snd v2_store_ops]. cbv zeta. reflexivity.
+  - rewrite !m_proj_tag_other by exact E.
+    apply Z.eqb_neq in E. rewrite E. reflexivity.
+Qed.
+
+Lemma m_batch_of_in : forall b tiles s d, In (s, d) (m_batch_of b tiles) -> In (b, s, d) tiles.
+Proof.
+  intros b tiles s d H. unfold m_batch_of in H. apply in_map_iff in H.
+  destruct H as [[[b' s'] d'] [E H]]. cbn [fst snd] in E. inversion E; subst s' d'.
+  apply filter_In in H. destruct H as [H E']. cbn [fst] in E'. apply Z.eqb_eq in E'. subst b'. exact H.
+Qed.
+
+Lemma m_store_ops_valid : forall st tiles,
+  (forall x, v2_wf (st x)) ->
+  (forall x, flen (st x) + total_len (m_batch_of x tiles) <= P40) ->
+  (forall bb s d, In (bb, s, d) tiles -> 0 <= s < SLOTS /\ d <> [] /\ zlen d < 16777216) ->
+  forall x, v2_raw_ok (m_batch_of x tiles) (flen (st x)) (st x) (m_proj x (m_store_ops st tiles)) = true.
+Proof.
+  intros st tiles Hwf Hg Hb x. rewrite m_store_proj. apply v2_store_ops_valid; auto.
+  intros s d H. apply (Hb x). apply m_batch_of_in. exact H.
+Qed.
+
+Lemma m_batch_no_empty : forall tiles,
+  (forall bb s d, In (bb, s, d) tiles -> 0 <= s < SLOTS /\ d <> [] /\ zlen d < 16777216) ->
+  forall x s, has_data (m_batch_of x tiles) s [] = false.
+Proof.
+  intros tiles Hb x. apply batch_ok_no_empty. intros s d H.
+  apply m_batch_of_in in H. destruct (Hb x s d H) as [_ [B _]]. exact B.
+Qed.
+
+(* (4) the modelled multi-bundle store is crash safe: in every crash state every slot of every bundle
+   reads as before or as a complete non-empty tile stored into that slot of that bundle *)
+Theorem m_store_crash_safe : forall st tiles st' b slot,
+  (forall x, v2_wf (st x)) ->
+  (forall x, flen (st x) + total_len (m_batch_of x tiles) <= P40) ->
+  (forall bb s d, In (bb, s, d) tiles -> 0 <= s < SLOTS /\ d <> [] /\ zlen d < 16777216) ->
+  In st' (m_crash_states st (m_store_ops st tiles)) -> 0 <= slot < SLOTS ->
+  v2_read (st' b) slot = v2_read (st b) slot \/
+  exists dd, has_data (m_batch_of b tiles) slot dd = true /\ dd <> [] /\ v2_read (st' b) slot = RData dd.
+Proof.
+  intros st tiles st' b slot Hwf Hg Hb Hin Hs.
+  apply (m_crash_safe (fun x => m_batch_of x tiles) st (m_store_ops st tiles) st' b slot); auto.
+  - apply m_store_ops_valid; auto.
+  - apply m_batch_no_empty. exact Hb.
+Qed.
+
+Corollary m_store_others_unaffected : forall st tiles st' b slot,
+  (forall x, v2_wf (st x)) ->
+  (forall x, flen (st x) + total_len (m_batch_of x tiles) <= P40) ->
+  (forall bb s d, In (bb, s, d) tiles -> 0 <= s < SLOTS /\ d <> [] /\ zlen d < 16777216) ->
+  In st' (m_crash_states st (m_store_ops st tiles)) -> 0 <= slot < SLOTS ->
+  (forall d, ~ In (b, slot, d) tiles) ->
+  v2_read (st' b) slot = v2_read (st b) slot.
+Proof.
+  intros st tiles st' b slot Hwf Hg Hb Hin Hs Hno.
+  apply (m_others_unaffected (fun x => m_batch_of x tiles) st (m_store_ops st tiles) st' b slot); auto.
+  - apply m_store_ops_valid; auto.
+  - intros dd. cbv beta. destruct (has_data (m_batch_of b tiles) slot dd) eqn:E; [|reflexivity].
+    unfold has_data in E. apply existsb_exists in E. destruct E as [[s d] [Hi E]].
+    cbn [fst snd] in E. apply andb_true_iff in E. destruct E as [E _]. apply Z.eqb_eq in E. subst s.
+    exfalso. apply (Hno d). apply m_batch_of_in. exact Hi.
+Qed.
+
+Theorem m_store_wf : forall st tiles,
+  (forall x, v2_wf (st x)) ->
+  (forall x, flen (st x) + total_len (m_batch_of x tiles) <= P40) ->
+  (forall bb s d, In (bb, s, d) tiles -> 0 <= s < SLOTS /\ d <> [] /\ zlen d < 16777216) ->
+  forall x, v2_wf (m_apply_all st (m_store_ops st tiles) x).
+Proof.
+  intros st tiles Hwf Hg Hb.
+  apply (m_wf_preserved (fun x => m_batch_of x tiles)); auto.
+  apply m_store_ops_valid; auto.
+Qed.
+
+(* (5) non-vacuity: two fresh bundles, three tiles, the second one in the other bundle *)
+Definition m_ex_st : mstate := fun _ => v2_init.
+Definition m_ex_tiles : list mtile := [(0, 5, [1;2;3]); (1, 5, [9;8]); (0, 6, [4])].
+
+Example m_ex_hyps :
+  (forall x, v2_wf (m_ex_st x)) /\
+  (forall x, flen (m_ex_st x) + total_len (m_batch_of x m_ex_tiles) <= P40) /\
+  (forall bb s d, In (bb, s, d) m_ex_tiles -> 0 <= s < SLOTS /\ d <> [] /\ zlen d < 16777216).
+Proof.
+  split; [intros x; apply v2_init_wf|]. split.
+  - intros x. unfold m_ex_st, m_ex_tiles, m_batch_of. cbn [filter fst snd].
+    destruct (0 =? x); destruct (1 =? x); vm_compute; discriminate.
+  - intros bb s d H. unfold m_ex_tiles in H. cbn [In] in H.
+    destruct H as [H|[H|[H|[]]]]; inversion H; subst bb s d;
+      (split; [unfold SLOTS; lia|]); (split; [discriminate|]); vm_compute; reflexivity.
+Qed.
+
+Example m_ex_crash_states :
+  length (m_store_ops m_ex_st m_ex_tiles) = 14%nat /\
+  length (m_crash_states m_ex_st (m_store_ops m_ex_st m_ex_tiles)) = 65%nat.
+Proof. vm_compute. split; reflexivity. Qed.
+
+Example m_ex_safe : forall st' b slot,
+  In st' (m_crash_states m_ex_st (m_store_ops m_ex_st m_ex_tiles)) -> 0 <= slot < SLOTS ->
+  v2_read (st' b) slot = v2_read (m_ex_st b) slot \/
+  exists dd, has_data (m_batch_of b m_ex_tiles) slot dd = true /\ dd <> [] /\ v2_read (st' b) slot = RData dd.
+Proof.
+  intros st' b slot Hin Hs. destruct m_ex_hyps as [A [B C]].
+  apply (m_store_crash_safe m_ex_st m_ex_tiles st' b slot); auto.
+Qed.
+
+(* ------------------------------------------------------------------------------------------------ *)
+(* Version 1                                                                                        *)
+
+Lemma m1upd_same : forall st b s, m1upd st b s b = s.
+Proof. intros st b s. unfold m1upd. rewrite Z.eqb_refl. reflexivity. Qed.
+
+Lemma m1upd_other : forall st b s x, x <> b -> m1upd st b s x = st x.
+Proof. intros st b s x H. unfold m1upd. apply Z.eqb_neq in H. rewrite H. reflexivity. Qed.
+
+Lemma m1_apply_same : forall st o, m1_apply st o (fst o) = v1_apply (st (fst o)) (snd o).
+Proof. intros st o. unfold m1_apply. apply m1upd_same. Qed.
+
+Lemma m1_apply_other : forall st o x, x <> fst o -> m1_apply st o x = st x.
+Proof. intros st o x H. unfold m1_apply. apply m1upd_other. exact H. Qed.
+
+Lemma v1_crash_states_head : forall ops s, In s (v1_crash_states s ops).
+Proof. intros ops s. destruct ops; left; reflexivity. Qed.
+
+Lemma m1_proj_cons_same : forall b (o : m1op) (r : list m1op), fst o = b -> m1_proj b (o :: r) = snd o :: m1_proj b r.
+Proof.
+  intros b o r H. unfold m1_proj. cbn [filter]. apply Z.eqb_eq in H. rewrite H. reflexivity.
+Qed.
+
+Lemma m1_proj_cons_other : forall b (o : m1op) (r : list m1op), fst o <> b -> m1_proj b (o :: r) = m1_proj b r.
+Proof.
+  intros b o r H. unfold m1_proj. cbn [filter]. apply Z.eqb_neq in H. rewrite H. reflexivity.
+Qed.
+
+Lemma m1_proj_app : forall b l1 l2, m1_proj b (l1 ++ l2) = m1_proj b l1 ++ m1_proj b l2.
+Proof. intros b l1 l2. unfold m1_proj. rewrite filter_app, map_app. reflexivity. Qed.
+
+Lemma m1_proj_tag_same : forall b (l : list v1op), m1_proj b (map (fun w => (b, w)) l) = l.
+Proof.
+  intros b l. induction l as [|w l IH]; [reflexivity|].
+  cbn [map]. rewrite m1_proj_cons_same by reflexivity. cbn [snd]. rewrite IH. reflexivity.
+Qed.
+
+Lemma m1_proj_tag_other : forall b b' (l : list v1op), b' <> b -> m1_proj b (map (fun w => (b', w)) l) = [].
+Proof.
+  intros b b' l H. induction l as [|w l IH]; [reflexivity|].
+  cbn [map]. rewrite m1_proj_cons_other by (cbn [fst]; exact H). exact IH.
+Qed.
+
+Lemma m1_crash_proj : forall ops st st' b,
+  In st' (m1_crash_states st ops) -> In (st' b) (v1_crash_states (st b) (m1_proj b ops)).
+Proof.
+  induction ops as [|o r IH]; intros st st' b Hin.
+  - cbn [m1_crash_states] in Hin. destruct Hin as [E|[]]. subst st'. left. reflexivity.
+  - cbn [m1_crash_states] in Hin. destruct Hin as [E|Hin].
+    { subst st'. apply v1_crash_states_head. }
+    apply in_app_or in Hin.
+    destruct (Z.eq_dec (fst o) b) as [E|E].
+    + rewrite (m1_proj_cons_same b o r E). subst b. cbn [v1_crash_states]. right. apply in_or_app.
+      destruct Hin as [Hin|Hin].
+      * left. apply in_map_iff in Hin. destruct Hin as [s [Es Hs]]. subst st'.
+        rewrite m1upd_same. exact Hs.
+      * right. apply (IH _ _ (fst o)) in Hin. rewrite m1_apply_same in Hin. exact Hin.
+    + rewrite (m1_proj_cons_other b o r E).
+      assert (E' : b <> fst o) by congruence.
+      destruct Hin as [Hin|Hin].
+      * apply in_map_iff in Hin. destruct Hin as [s [Es Hs]]. subst st'.
+        rewrite m1upd_other by exact E'. apply v1_crash_states_head.
+      * apply (IH _ _ b) in Hin. rewrite m1_apply_other in Hin by exact E'. exact Hin.
+Qed.
+
+Lemma m1_apply_all_proj : forall ops st b, m1_apply_all st ops b = v1_apply_all (st b) (m1_proj b ops).
+Proof.
+  induction ops as [|o r IH]; intros st b; [reflexivity|].
+  unfold m1_apply_all. cbn [fold_left]. fold (m1_apply_all (m1_apply st o) r). rewrite IH.
+  destruct (Z.eq_dec (fst o) b) as [E|E].
+  - rewrite (m1_proj_cons_same b o r E). subst b. rewrite m1_apply_same. reflexivity.
+  - rewrite (m1_proj_cons_other b o r E). rewrite m1_apply_other by congruence. reflexivity.
+Qed.
+
+Lemma m1_crash_states_last : forall ops st, In (m1_apply_all st ops) (m1_crash_states st ops).
+Proof.
+  induction ops as [|o r IH]; intros st; [left; reflexivity|].
+  cbn [m1_crash_states]. right. apply in_or_app. right. apply IH.
+Qed.
+
+Theorem m1_crash_safe : forall (bt : Z -> batch) st ops st' b slot,
+  (forall x, v1_wf (st x)) ->
+  (forall x, v1_raw_ok (bt x) (flen (v1dat (st x))) (st x) (m1_proj x ops) = true) ->
+  (forall x s, has_data (bt x) s [] = false) ->
+  In st' (m1_crash_states st ops) -> 0 <= slot < SLOTS ->
+  v1_read (st' b) slot = v1_read (st b) slot \/
+  exists dd, has_data (bt b) slot dd = true /\ dd <> [] /\ v1_read (st' b) slot = RData dd.
+Proof.
+  intros bt st ops st' b slot Hwf Hok Hne Hin Hs.
+  apply (v1_crash_safe_nonempty_batch (bt b) (st b) (m1_proj b ops)); auto.
+  apply m1_crash_proj. exact Hin.
+Qed.
+
+Corollary m1_others_unaffected : forall (bt : Z -> batch) st ops st' b slot,
+  (forall x, v1_wf (st x)) ->
+  (forall x, v1_raw_ok (bt x) (flen (v1dat (st x))) (st x) (m1_proj x ops) = true) ->
+  In st' (m1_crash_states st ops) -> 0 <= slot < SLOTS ->
+  (forall dd, has_data (bt b) slot dd = false) ->
+  v1_read (st' b) slot = v1_read (st b) slot.
+Proof.
+  intros bt st ops st' b slot Hwf Hok Hin Hs Hno.
+  apply (v1_others_unaffected (bt b) (st b) (m1_proj b ops)); auto.
+  apply m1_crash_proj. exact Hin.
+Qed.
+
+Theorem m1_wf_preserved : forall (bt : Z -> batch) st ops,
+  (forall x, v1_wf (st x)) ->
+  (forall x, v1_raw_ok (bt x) (flen (v1dat (st x))) (st x) (m1_proj x ops) = true) ->
+  forall x, v1_wf (m1_apply_all st ops x).
+Proof.
+  intros bt st ops Hwf Hok x. rewrite m1_apply_all_proj.
+  apply (v1_wf_preserved (bt x)); auto.
+Qed.
+
+Lemma m1_store_proj : forall tiles st b,
+  m1_proj b (m1_store_ops st tiles) = v1_store_ops (st b) (m_batch_of b tiles).
+Proof.
+  induction tiles as [|[[b' slot] d] r IH]; intros st b; [reflexivity|].
+  cbn [m1_store_ops]. cbv zeta. rewrite m1_proj_app, IH, m1_apply_all_proj.
+  unfold m_batch_of. cbn [filter fst snd].
+  destruct (Z.eq_dec b' b) as [E|E].
+  - subst b'. rewrite Z.eqb_refl. rewrite !m1_proj_tag_same.
+    cbn [map fst snd v1_store_ops]. cbv zeta. reflexivity.
+  - rewrite !m1_proj_tag_other by exact E.
+    apply Z.eqb_neq in E. rewrite E. reflexivity.
+Qed.
+
+Lemma m1_store_ops_valid : forall st tiles,
+  (forall x, v1_wf (st x)) ->
+  (forall x, flen (v1dat (st x)) + total_len (m_batch_of x tiles) <= 1099511627776) ->
+  (forall bb s d, In (bb, s, d) tiles -> 0 <= s < SLOTS /\ d <> [] /\ zlen d < 4294967296) ->
+  forall x, v1_raw_ok (m_batch_of x tiles) (flen (v1dat (st x))) (st x) (m1_proj x (m1_store_ops st tiles)) = true.
+Proof.
+  intros st tiles Hwf Hg Hb x. rewrite m1_store_proj. apply v1_store_ops_valid; auto.
+  intros s d H. apply (Hb x). apply m_batch_of_in. exact H.
+Qed.
+
+Lemma m1_batch_no_empty : forall tiles,
+  (forall bb s d, In (bb, s, d) tiles -> 0 <= s < SLOTS /\ d <> [] /\ zlen d < 4294967296) ->
+  forall x s, has_data (m_batch_of x tiles) s [] = false.
+Proof.
+  intros tiles Hb x. apply batch_ok_no_empty. intros s d H.
+  apply m_batch_of_in in H. destruct (Hb x s d H) as [_ [B _]]. exact B.
+Qed.
+
+Theorem m1_store_crash_safe : forall st tiles st' b slot,
+  (forall x, v1_wf (st x)) ->
+  (forall x, flen (v1dat (st x)) + total_len (m_batch_of x tiles) <= 1099511627776) ->
+  (forall bb s d, In (bb, s, d) tiles -> 0 <= s < SLOTS /\ d <> [] /\ zlen d < 4294967296) ->
+  In st' (m1_crash_states st (m1_store_ops st tiles)) -> 0 <= slot < SLOTS ->
+  v1_read (st' b) slot = v1_read (st b) slot \/
+  exists dd, has_data (m_batch_of b tiles) slot dd = true /\ dd <> [] /\ v1_read (st' b) slot = RData dd.
+Proof.
+  intros st tiles st' b slot Hwf Hg Hb Hin Hs.
+  apply (m1_crash_safe (fun x => m_batch_of x tiles) st (m1_store_ops st tiles) st' b slot); auto.
+  - apply m1_store_ops_valid; auto.
+  - apply m1_batch_no_empty. exact Hb.
+Qed.
+
+Corollary m1_store_others_unaffected : forall st tiles st' b slot,
+  (forall x, v1_wf (st x)) ->
+  (forall x, flen (v1dat (st x)) + total_len (m_batch_of x tiles) <= 1099511627776) ->
+  (forall bb s d, In (bb, s, d) tiles -> 0 <= s < SLOTS /\ d <> [] /\ zlen d < 4294967296) ->
+  In st' (m1_crash_states st (m1_store_ops st tiles)) -> 0 <= slot < SLOTS ->
+  (forall d, ~ In (b, slot, d) tiles) ->
+  v1_read (st' b) slot = v1_read (st b) slot.
+Proof.
+  intros st tiles st' b slot Hwf Hg Hb Hin Hs Hno.
+  apply (m1_others_unaffected (fun x => m_batch_of x tiles) st (m1_store_ops st tiles) st' b slot); auto.
+  - apply m1_store_ops_valid; auto.
+  - intros dd. cbv beta. destruct (has_data (m_batch_of b tiles) slot dd) eqn:E; [|reflexivity].
+    unfold has_data in E. apply existsb_exists in E. destruct E as [[s d] [Hi E]].
+    cbn [fst snd] in E. apply andb_true_iff in E. destruct E as [E _]. apply Z.eqb_eq in E. subst s.
+    exfalso. apply (Hno d). apply m_batch_of_in. exact Hi.
+Qed.
+
+Theorem m1_store_wf : forall st tiles,
+  (forall x, v1_wf (st x)) ->
+  (forall x, flen (v1dat (st x)) + total_len (m_batch_of x tiles) <= 1099511627776) ->
+  (forall bb s d, In (bb, s, d) tiles -> 0 <= s < SLOTS /\ d <> [] /\ zlen d < 4294967296) ->
+  forall x, v1_wf (m1_apply_all st (m1_store_ops st tiles) x).
+Proof.
+  intros st tiles Hwf Hg Hb.
+  apply (m1_wf_preserved (fun x => m_batch_of x tiles)); auto.
+  apply m1_store_ops_valid; auto.
+Qed.
+
+(* non-vacuity for version 1: the same three tiles on two fresh bundles *)
+Definition m1_ex_st : m1state := fun _ => mkV1 (v1_dat_init 0 0) v1_idx_init.
+
+Example m1_ex_hyps :
+  (forall x, v1_wf (m1_ex_st x)) /\
+  (forall x, flen (v1dat (m1_ex_st x)) + total_len (m_batch_of x m_ex_tiles) <= 1099511627776) /\
+  (forall bb s d, In (bb, s, d) m_ex_tiles -> 0 <= s < SLOTS /\ d <> [] /\ zlen d < 4294967296).
+Proof.
+  split; [intros x; apply v1_init_wf|]. split.
+  - intros x. unfold m1_ex_st, m_ex_tiles, m_batch_of. cbn [filter fst snd].
+    destruct (0 =? x); destruct (1 =? x); vm_compute; discriminate.
+  - intros bb s d H. unfold m_ex_tiles in H. cbn [In] in H.
+    destruct H as [H|[H|[H|[]]]]; inversion H; subst bb s d;
+      (split; [unfold SLOTS; lia|]); (split; [discriminate|]); vm_compute; reflexivity.
+Qed.
+
+Example m1_ex_crash_states :
+  length (m1_store_ops m1_ex_st m_ex_tiles) = 12%nat /\
+  length (m1_crash_states m1_ex_st (m1_store_ops m1_ex_st m_ex_tiles)) = 211%nat.
+Proof. vm_compute. split; reflexivity. Qed.
+
+Example m1_ex_safe : forall st' b slot,
+  In st' (m1_crash_states m1_ex_st (m1_store_ops m1_ex_st m_ex_tiles)) -> 0 <= slot < SLOTS ->
+  v1_read (st' b) slot = v1_read (m1_ex_st b) slot \/
+  exists dd, has_data (m_batch_of b m_ex_tiles) slot dd = true /\ dd <> [] /\ v1_read (st' b) slot = RData dd.
+Proof.
+  intros st' b slot Hin Hs. destruct m1_ex_hyps as [A [B C]].
+  apply (m1_store_crash_safe m1_ex_st m_ex_tiles st' b slot); auto.
+Qed.
+
+(* ==== PART 7: bundle files embedded in the directory: initialisation + in-place phase in one theorem ==== *)
+
+
+(* ------------------------------------------------------------------------------------------------ *)
+(* generic facts                                                                                    *)
+
+Lemma bd_upd_same : forall s p v, bd_upd s p v p = v.
+Proof. intros. unfold bd_upd. rewrite path_eqb_refl. reflexivity. Qed.
+
+Lemma bd_upd_other : forall s p v q, q <> p -> bd_upd s p v q = s q.
+Proof. intros. unfold bd_upd. rewrite path_eqb_neq by assumption. reflexivity. Qed.
+
+Lemma b_crash_states_head : forall s ops, In s (b_crash_states s ops).
+Proof. intros s ops; destruct ops; cbn [b_crash_states]; left; reflexivity. Qed.
+
+Lemma b_crash_states_last : forall ops s, In (b_apply_all s ops) (b_crash_states s ops).
+Proof.
+  induction ops as [|o r IH]; intros s; cbn [b_crash_states b_apply_all fold_left].
+  - left. reflexivity.
+  - right. apply in_or_app. right. apply IH.
+Qed.
+
+Lemma b_crash_states_app : forall a b s s',
+  In s' (b_crash_states s (a ++ b)) ->
+  In s' (b_crash_states s a) \/ In s' (b_crash_states (b_apply_all s a) b).
+Proof.
+  induction a as [|o r IH]; intros b s s' H.
+  - right. exact H.
+  - cbn [app b_crash_states] in H. destruct H as [<-|H].
+    + left. apply b_crash_states_head.
+    + apply in_app_or in H. destruct H as [H|H].
+      * left. cbn [b_crash_states]. right. apply in_or_app. left. exact H.
+      * apply IH in H. destruct H as [H|H].
+        -- left. cbn [b_crash_states]. right. apply in_or_app. right. exact H.
+        -- right. exact H.
+Qed.
+
+Lemma b_apply_all_app : forall a b s, b_apply_all s (a ++ b) = b_apply_all (b_apply_all s a) b.
+Proof. intros. unfold b_apply_all. apply fold_left_app. Qed.
+
+Lemma b_apply_frame : forall s o q, ~ In q (b_touched_op o) -> b_apply s o q = s q.
+Proof.
+  intros s o q H. destruct o; cbn [b_apply b_touched_op] in *.
+  - apply bd_upd_other. intros E; apply H; subst; cbn [In]; auto.
+  - destruct (s t); [|reflexivity]. apply bd_upd_other. intros E; apply H; subst; cbn [In]; auto.
+  - destruct (s t); [|reflexivity]. rewrite !bd_upd_other; [reflexivity| |];
+      intros E; apply H; subst; cbn [In]; auto.
+  - apply bd_upd_other. intros E; apply H; subst; cbn [In]; auto.
+  - destruct (s p); [|reflexivity]. apply bd_upd_other. intros E; apply H; subst; cbn [In]; auto.
+  - destruct (s p); [|reflexivity]. apply bd_upd_other. intros E; apply H; subst; cbn [In]; auto.
+  - destruct (s p); [|reflexivity]. apply bd_upd_other. intros E; apply H; subst; cbn [In]; auto.
+Qed.
+
+Lemma b_tears_frame : forall s o s' q,
+  In s' (b_tears s o) -> ~ In q (b_touched_op o) -> s' q = s q.
+Proof.
+  intros s o s' q Hin H. destruct o; cbn [b_tears b_touched_op In] in *; try contradiction.
+  - destruct (s t); [|contradiction]. apply in_map_iff in Hin. destruct Hin as [k [<- _]].
+    apply bd_upd_other. intros E; apply H; subst; auto.
+  - destruct (s p); [|contradiction]. destruct (v2_tearable f w); [|contradiction].
+    apply in_map_iff in Hin. destruct Hin as [k [<- _]].
+    apply bd_upd_other. intros E; apply H; subst; auto.
+  - destruct (s p); [|contradiction]. apply in_map_iff in Hin. destruct Hin as [k [<- _]].
+    apply bd_upd_other. intros E; apply H; subst; auto.
+Qed.
+
+Lemma b_crash_states_frame : forall ops s s' q,
+  ~ In q (b_touched ops) -> In s' (b_crash_states s ops) -> s' q = s q.
+Proof.
+  induction ops as [|o r IH]; intros s s' q Hq Hin; cbn [b_crash_states] in Hin.
+  - destruct Hin as [<-|[]]. reflexivity.
+  - unfold b_touched in Hq. cbn [flat_map] in Hq.
+    assert (Ho : ~ In q (b_touched_op o)) by (intros E; apply Hq; apply in_or_app; left; exact E).
+    assert (Hr : ~ In q (b_touched r)) by (intros E; apply Hq; apply in_or_app; right; exact E).
+    destruct Hin as [<-|Hin]; [reflexivity|].
+    apply in_app_or in Hin. destruct Hin as [Hin|Hin].
+    + eapply b_tears_frame; eauto.
+    + rewrite (IH _ _ _ Hr Hin). apply b_apply_frame. exact Ho.
+Qed.
+
+Lemma b_apply_all_frame : forall ops s q, ~ In q (b_touched ops) -> b_apply_all s ops q = s q.
+Proof.
+  intros ops s q H. apply b_crash_states_frame with (ops := ops); [exact H|apply b_crash_states_last].
+Qed.
+
+(* ------------------------------------------------------------------------------------------------ *)
+(* write_atomic of an initial file                                                                  *)
+
+Lemma b_init_apply : forall s t p g,
+  b_apply_all s (b_init_ops t p g) =
+  bd_upd (bd_upd (bd_upd (bd_upd s t (Some fempty)) t (Some g)) t None) p (Some g).
+Proof.
+  intros s t p g. unfold b_init_ops, b_apply_all. cbn [fold_left b_apply].
+  rewrite bd_upd_same. rewrite bd_upd_same. reflexivity.
+Qed.
+
+Lemma b_init_target : forall s t p g, b_apply_all s (b_init_ops t p g) p = Some g.
+Proof. intros. rewrite b_init_apply. apply bd_upd_same. Qed.
+
+Lemma b_init_other : forall s t p g q, q <> t -> q <> p -> b_apply_all s (b_init_ops t p g) q = s q.
+Proof. intros. rewrite b_init_apply. rewrite !bd_upd_other by assumption. reflexivity. Qed.
+
+(* before the rename completes nothing but the temp name has changed; the only other state is the final one *)
+Lemma b_init_states : forall s t p g s',
+  In s' (b_crash_states s (b_init_ops t p g)) ->
+  (forall q, q <> t -> s' q = s q) \/ s' = b_apply_all s (b_init_ops t p g).
+Proof.
+  intros s t p g s' H.
+  change (b_init_ops t p g) with ([BCreate t; BPut t g] ++ [BRename t p]) in H.
+  apply b_crash_states_app in H. destruct H as [H|H].
+  - left. intros q Hq. eapply b_crash_states_frame; [|exact H].
+    unfold b_touched. cbn [flat_map b_touched_op app In]. intros [E|[E|[]]]; apply Hq; symmetry; exact E.
+  - cbn [b_crash_states b_tears app] in H. destruct H as [<-|[<-|[]]].
+    + left. intros q Hq. apply b_apply_all_frame.
+      unfold b_touched. cbn [flat_map b_touched_op app In]. intros [E|[E|[]]]; apply Hq; symmetry; exact E.
+    + right. change (b_init_ops t p g) with ([BCreate t; BPut t g] ++ [BRename t p]).
+      rewrite b_apply_all_app. reflexivity.
+Qed.
+
+(* ------------------------------------------------------------------------------------------------ *)
+(* version 2                                                                                        *)
+
+Lemma b_inplace_states : forall ops s p f s',
+  s p = Some f -> In s' (b_crash_states s (map (BW p) ops)) ->
+  exists f', In f' (v2_crash_states f ops) /\ s' p = Some f' /\ forall q, q <> p -> s' q = s q.
+Proof.
+  induction ops as [|w r IH]; intros s p f s' Hp Hin; cbn [map b_crash_states] in Hin.
+  - destruct Hin as [<-|[]]. exists f. split; [left; reflexivity|]. split; [exact Hp|reflexivity].
+  - destruct Hin as [<-|Hin].
+    + exists f. split; [left; reflexivity|]. split; [exact Hp|reflexivity].
+    + apply in_app_or in Hin. destruct Hin as [Hin|Hin].
+      * cbn [b_tears] in Hin. rewrite Hp in Hin.
+        destruct (v2_tearable f w) eqn:Et; [|destruct Hin].
+        apply in_map_iff in Hin. destruct Hin as [f' [<- Hf']].
+        exists f'. split.
+        { cbn [v2_crash_states]. right. apply in_or_app. left. rewrite Et. exact Hf'. }
+        split; [apply bd_upd_same|]. intros q Hq. apply bd_upd_other. exact Hq.
+      * cbn [b_apply] in Hin. rewrite Hp in Hin.
+        destruct (IH (bd_upd s p (Some (bw_apply f w))) p (bw_apply f w) s' (bd_upd_same _ _ _) Hin)
+          as [f' [H1 [H2 H3]]].
+        exists f'. split.
+        { cbn [v2_crash_states]. right. apply in_or_app. right. exact H1. }
+        split; [exact H2|]. intros q Hq. rewrite (H3 q Hq). apply bd_upd_other. exact Hq.
+Qed.
+
+Lemma b_inplace_apply_all : forall ops s p f,
+  s p = Some f -> b_apply_all s (map (BW p) ops) p = Some (bw_apply_all f ops).
+Proof.
+  induction ops as [|w r IH]; intros s p f Hp; [exact Hp|].
+  cbn [map b_apply_all fold_left bw_apply_all b_apply]. rewrite Hp.
+  apply (IH (bd_upd s p (Some (bw_apply f w))) p (bw_apply f w)). apply bd_upd_same.
+Qed.
+
+Lemma b_touched_inplace : forall p ops q, In q (b_touched (map (BW p) ops)) -> q = p.
+Proof.
+  intros p ops q H. unfold b_touched in H. apply in_flat_map in H. destruct H as [o [Ho Hq]].
+  apply in_map_iff in Ho. destruct Ho as [w [<- _]]. cbn [b_touched_op In] in Hq.
+  destruct Hq as [E|[]]. symmetry. exact E.
+Qed.
+
+Lemma v2_init_read : forall slot, 0 <= slot < SLOTS -> v2_read v2_init slot = RMissing.
+Proof. intros slot Hs. unfold v2_read. rewrite v2_init_entry by exact Hs. reflexivity. Qed.
+
+Lemma v2_dir_store_ops_touched : forall s p sfx b q,
+  In q (b_touched (v2_dir_store_ops s p sfx b)) -> q = p \/ q = tmp_of p sfx.
+Proof.
+  intros s p sfx b q H. unfold v2_dir_store_ops in H. destruct (s p) as [f|].
+  - left. eapply b_touched_inplace. exact H.
+  - destruct (bd_exists s (tmp_of p sfx)).
+    + cbn in H. destruct H as [E|[]]. right. symmetry. exact E.
+    + unfold b_touched in H. rewrite flat_map_app in H. apply in_app_or in H. destruct H as [H|H].
+      * cbn [flat_map b_touched_op app In] in H.
+        destruct H as [E|[E|[E|[E|[]]]]]; auto.
+      * left. eapply b_touched_inplace. exact H.
+Qed.
+
+Theorem v2_dir_store_crash_safe : forall s p sfx b s' slot,
+  (forall f, s p = Some f -> v2_wf f /\ flen f + total_len b <= P40) ->
+  V2_REC + total_len b <= P40 -> v2_batch_ok b ->
+  In s' (b_crash_states s (v2_dir_store_ops s p sfx b)) -> 0 <= slot < SLOTS ->
+  v2_dir_read s' p slot = v2_dir_read s p slot \/
+  exists dd, has_data b slot dd = true /\ dd <> [] /\ v2_dir_read s' p slot = RData dd.
+Proof.
+  intros s p sfx b s' slot Hf Hg Hb Hin Hs.
+  unfold v2_dir_store_ops in Hin. unfold v2_dir_read at 2.
+  destruct (s p) as [f|] eqn:Ep.
+  - destruct (Hf f eq_refl) as [Hwf Hlen].
+    destruct (b_inplace_states _ _ _ _ _ Ep Hin) as [f' [H1 [H2 _]]].
+    unfold v2_dir_read. rewrite H2.
+    apply (v2_store_crash_safe b f f' slot); assumption.
+  - assert (Ht : tmp_of p sfx <> p) by apply tmp_neq.
+    assert (Ht' : p <> tmp_of p sfx) by (intros E; apply Ht; symmetry; exact E).
+    destruct (bd_exists s (tmp_of p sfx)).
+    + left. unfold v2_dir_read.
+      rewrite (b_crash_states_frame [BUnlink (tmp_of p sfx)] s s' p); [rewrite Ep; reflexivity| |exact Hin].
+      cbn. intros [E|[]]. contradiction.
+    + apply b_crash_states_app in Hin.
+      assert (Hfin : b_apply_all s (b_init_ops (tmp_of p sfx) p v2_init) p = Some v2_init)
+        by apply b_init_target.
+      assert (Hsecond : forall s2, In s2 (b_crash_states (b_apply_all s (b_init_ops (tmp_of p sfx) p v2_init))
+                                            (map (BW p) (v2_store_ops v2_init b))) ->
+              v2_dir_read s2 p slot = RMissing \/
+              exists dd, has_data b slot dd = true /\ dd <> [] /\ v2_dir_read s2 p slot = RData dd).
+      { intros s2 H2.
+        destruct (b_inplace_states _ _ _ _ _ Hfin H2) as [f' [H1 [H3 _]]].
+        unfold v2_dir_read. rewrite H3. rewrite <- (v2_init_read slot Hs).
+        apply (v2_store_crash_safe b v2_init f' slot); auto using v2_init_wf. }
+      destruct Hin as [Hin|Hin].
+      * apply b_init_states in Hin. destruct Hin as [Hin| ->].
+        -- left. unfold v2_dir_read. rewrite (Hin p Ht'), Ep. reflexivity.
+        -- apply Hsecond. apply b_crash_states_head.
+      * apply Hsecond. exact Hin.
+Qed.
+
+Theorem v2_dir_store_others : forall s p sfx b s' q,
+  In s' (b_crash_states s (v2_dir_store_ops s p sfx b)) ->
+  q <> p -> q <> tmp_of p sfx -> s' q = s q.
+Proof.
+  intros s p sfx b s' q Hin Hp Ht.
+  eapply b_crash_states_frame; [|exact Hin].
+  intros H. apply v2_dir_store_ops_touched in H. destruct H; contradiction.
+Qed.
+
+Theorem v2_dir_store_completes : forall s p sfx b,
+  (forall f, s p = Some f -> v2_wf f /\ flen f + total_len b <= P40) ->
+  V2_REC + total_len b <= P40 -> v2_batch_ok b ->
+  (s p = None -> bd_exists s (tmp_of p sfx) = false) ->
+  exists f, b_apply_all s (v2_dir_store_ops s p sfx b) p = Some f /\ v2_wf f.
+Proof.
+  intros s p sfx b Hf Hg Hb Hex. unfold v2_dir_store_ops.
+  destruct (s p) as [f|] eqn:Ep.
+  - destruct (Hf f eq_refl) as [Hwf Hlen].
+    exists (bw_apply_all f (v2_store_ops f b)). split.
+    + apply b_inplace_apply_all. exact Ep.
+    + apply v2_store_wf; assumption.
+  - rewrite (Hex eq_refl).
+    exists (bw_apply_all v2_init (v2_store_ops v2_init b)). split.
+    + rewrite b_apply_all_app. apply b_inplace_apply_all. apply b_init_target.
+    + apply v2_store_wf; [apply v2_init_wf|exact Hg|exact Hb].
+Qed.
+
+(* the completed call returns the stored data or keeps the old answer (the final state is a crash state) *)
+Corollary v2_dir_store_final_read : forall s p sfx b slot,
+  (forall f, s p = Some f -> v2_wf f /\ flen f + total_len b <= P40) ->
+  V2_REC + total_len b <= P40 -> v2_batch_ok b -> 0 <= slot < SLOTS ->
+  let s' := b_apply_all s (v2_dir_store_ops s p sfx b) in
+  v2_dir_read s' p slot = v2_dir_read s p slot \/
+  exists dd, has_data b slot dd = true /\ dd <> [] /\ v2_dir_read s' p slot = RData dd.
+Proof.
+  intros s p sfx b slot Hf Hg Hb Hs s'.
+  apply (v2_dir_store_crash_safe s p sfx b s' slot); auto. apply b_crash_states_last.
+Qed.
+
+(* non-vacuity: an empty directory, one tile *)
+Definition ex_dir : bdir := fun _ => None.
+Definition ex_bp : path := [1; 2].
+Definition ex_batch : batch := [(5, [1; 2; 3])].
+
+Example v2_dir_example :
+  (forall f, ex_dir ex_bp = Some f -> v2_wf f /\ flen f + total_len ex_batch <= P40) /\
+  V2_REC + total_len ex_batch <= P40 /\ v2_batch_ok ex_batch /\
+  bd_exists ex_dir (tmp_of ex_bp [49]) = false /\
+  length (v2_dir_store_ops ex_dir ex_bp [49] ex_batch) = 8%nat /\
+  In (b_apply_all ex_dir (v2_dir_store_ops ex_dir ex_bp [49] ex_batch))
+     (b_crash_states ex_dir (v2_dir_store_ops ex_dir ex_bp [49] ex_batch)) /\
+  v2_dir_read ex_dir ex_bp 5 = RMissing /\
+  v2_dir_read (b_apply_all ex_dir (v2_dir_store_ops ex_dir ex_bp [49] ex_batch)) ex_bp 5 = RData [1; 2; 3] /\
+  v2_dir_read (b_apply_all ex_dir (v2_dir_store_ops ex_dir ex_bp [49] ex_batch)) ex_bp 6 = RMissing.
+Proof.
+  split; [intros f H; discriminate H|].
+  split; [vm_compute; discriminate|].
+  split.
+  { intros slot d [H|[]]. inversion H; subst. split; [unfold SLOTS; lia|].
+    split; [discriminate|]. split; [vm_compute; reflexivity|].
+    intros x [<-|[<-|[<-|[]]]]; lia. }
+  split; [reflexivity|].
+  split; [vm_compute; reflexivity|].
+  split; [apply b_crash_states_last|].
+  split; [reflexivity|].
+  split; vm_compute; reflexivity.
+Qed.
+
+(* ------------------------------------------------------------------------------------------------ *)
+(* version 1                                                                                        *)
+
+Lemma b_inplace_states_v1 : forall ops s pd pi fd fi s',
+  pd <> pi -> s pd = Some fd -> s pi = Some fi ->
+  In s' (b_crash_states s (map (v1_bop pd pi) ops)) ->
+  exists st', In st' (v1_crash_states (mkV1 fd fi) ops) /\
+              s' pd = Some (v1dat st') /\ s' pi = Some (v1idx st') /\
+              forall q, q <> pd -> q <> pi -> s' q = s q.
+Proof.
+  induction ops as [|o r IH]; intros s pd pi fd fi s' Hne Hd Hi Hin; cbn [map b_crash_states] in Hin.
+  - destruct Hin as [<-|[]]. exists (mkV1 fd fi). split; [left; reflexivity|].
+    split; [exact Hd|]. split; [exact Hi|reflexivity].
+  - assert (Hne' : pi <> pd) by (intros E; apply Hne; symmetry; exact E).
+    destruct Hin as [<-|Hin].
+    + exists (mkV1 fd fi). split; [left; reflexivity|].
+      split; [exact Hd|]. split; [exact Hi|reflexivity].
+    + apply in_app_or in Hin. destruct Hin as [Hin|Hin].
+      * destruct o as [off d|off d]; cbn [v1_bop b_tears] in Hin; [|destruct Hin].
+        rewrite Hd in Hin. apply in_map_iff in Hin. destruct Hin as [k [<- Hk]].
+        exists (v1_apply (mkV1 fd fi) (WD off (firstn k d))). split.
+        { cbn [v1_crash_states]. right. apply in_or_app. left. cbn [v1_tears].
+          apply in_map_iff. exists k. split; [reflexivity|exact Hk]. }
+        cbn [v1_apply v1dat v1idx].
+        split; [apply bd_upd_same|]. split; [rewrite bd_upd_other by exact Hne'; exact Hi|].
+        intros q Hq _. apply bd_upd_other. exact Hq.
+      * destruct o as [off d|off d]; cbn [v1_bop b_apply] in Hin.
+        -- rewrite Hd in Hin.
+           assert (Hi2 : bd_upd s pd (Some (fwrite fd off d)) pi = Some fi)
+             by (rewrite bd_upd_other by exact Hne'; exact Hi).
+           destruct (IH _ pd pi (fwrite fd off d) fi s' Hne (bd_upd_same _ _ _) Hi2 Hin)
+             as [st' [H1 [H2 [H3 H4]]]].
+           exists st'. split.
+           { cbn [v1_crash_states]. right. apply in_or_app. right. exact H1. }
+           split; [exact H2|]. split; [exact H3|].
+           intros q Hq1 Hq2. rewrite (H4 q Hq1 Hq2). apply bd_upd_other. exact Hq1.
+        -- rewrite Hi in Hin.
+           assert (Hd2 : bd_upd s pi (Some (fwrite fi off d)) pd = Some fd)
+             by (rewrite bd_upd_other by exact Hne; exact Hd).
+           destruct (IH _ pd pi fd (fwrite fi off d) s' Hne Hd2 (bd_upd_same _ _ _) Hin)
+             as [st' [H1 [H2 [H3 H4]]]].
+           exists st'. split.
+           { cbn [v1_crash_states]. right. apply in_or_app. right. exact H1. }
+           split; [exact H2|]. split; [exact H3|].
+           intros q Hq1 Hq2. rewrite (H4 q Hq1 Hq2). apply bd_upd_other. exact Hq2.
+Qed.
+
+Lemma b_inplace_apply_all_v1 : forall ops s pd pi fd fi,
+  pd <> pi -> s pd = Some fd -> s pi = Some fi ->
+  b_apply_all s (map (v1_bop pd pi) ops) pd = Some (v1dat (v1_apply_all (mkV1 fd fi) ops)) /\
+  b_apply_all s (map (v1_bop pd pi) ops) pi = Some (v1idx (v1_apply_all (mkV1 fd fi) ops)).
+Proof.
+  induction ops as [|o r IH]; intros s pd pi fd fi Hne Hd Hi; [split; assumption|].
+  assert (Hne' : pi <> pd) by (intros E; apply Hne; symmetry; exact E).
+  cbn [map b_apply_all fold_left v1_apply_all].
+  destruct o as [off d|off d]; cbn [v1_bop b_apply v1_apply v1dat v1idx].
+  - rewrite Hd. apply IH; [exact Hne|apply bd_upd_same|rewrite bd_upd_other by exact Hne'; exact Hi].
+  - rewrite Hi. apply IH; [exact Hne|rewrite bd_upd_other by exact Hne; exact Hd|apply bd_upd_same].
+Qed.
+
+Lemma b_touched_inplace_v1 : forall pd pi ops q,
+  In q (b_touched (map (v1_bop pd pi) ops)) -> q = pd \/ q = pi.
+Proof.
+  intros pd pi ops q H. unfold b_touched in H. apply in_flat_map in H. destruct H as [o [Ho Hq]].
+  apply in_map_iff in Ho. destruct Ho as [w [<- _]].
+  destruct w; cbn [v1_bop b_touched_op In] in Hq; destruct Hq as [E|[]]; auto.
+Qed.
+
+Lemma b_init_tmp_gone : forall s t p g, t <> p -> b_apply_all s (b_init_ops t p g) t = None.
+Proof. intros. rewrite b_init_apply. rewrite bd_upd_other by assumption. apply bd_upd_same. Qed.
+
+Lemma v1_init_read : forall c r slot, 0 <= slot < SLOTS ->
+  v1_read (mkV1 (v1_dat_init c r) v1_idx_init) slot = RMissing.
+Proof.
+  intros c r slot Hs. unfold v1_read. rewrite v1_init_entry by exact Hs.
+  replace (60 + 4 * slot =? 0) with false by (symmetry; apply Z.eqb_neq; lia).
+  cbn [v1dat]. unfold rdnum.
+  replace (60 + 4 * slot + Z.of_nat 4 <=? flen (v1_dat_init c r)) with true
+    by (symmetry; apply Z.leb_le; change (Z.of_nat 4) with 4; cbn [flen v1_dat_init];
+        unfold V1_REC, SLOTS in *; lia).
+  unfold fread. cbn [seq map]. rewrite !v1_dat_init_zero by lia. reflexivity.
+Qed.
+
+(* the in-place phase on two existing files *)
+Lemma v1_dir_inplace_safe : forall s pd pi b fd fi s' slot,
+  pd <> pi -> s pd = Some fd -> s pi = Some fi ->
+  v1_wf (mkV1 fd fi) -> flen fd + total_len b <= 1099511627776 -> v1_batch_ok b ->
+  In s' (b_crash_states s (v1_dir_inplace_ops s pd pi b)) -> 0 <= slot < SLOTS ->
+  v1_dir_read s' pd pi slot = v1_read (mkV1 fd fi) slot \/
+  exists dd, has_data b slot dd = true /\ dd <> [] /\ v1_dir_read s' pd pi slot = RData dd.
+Proof.
+  intros s pd pi b fd fi s' slot Hne Hd Hi Hwf Hlen Hb Hin Hs.
+  unfold v1_dir_inplace_ops in Hin. rewrite Hd, Hi in Hin.
+  destruct (b_inplace_states_v1 _ _ _ _ _ _ _ Hne Hd Hi Hin) as [st' [H1 [H2 [H3 _]]]].
+  unfold v1_dir_read. rewrite H3, H2. destruct st' as [fd' fi']. cbn [v1dat v1idx].
+  apply (v1_store_crash_safe b (mkV1 fd fi) (mkV1 fd' fi') slot); assumption.
+Qed.
+
+(* index initialisation + in-place phase, the data file exists *)
+Lemma v1_dir_idx_safe : forall s pd pi sfx2 b fd s' slot,
+  pd <> pi -> tmp_of pi sfx2 <> pd -> s pd = Some fd ->
+  v1_wf (mkV1 fd (match s pi with Some fi => fi | None => v1_idx_init end)) ->
+  flen fd + total_len b <= 1099511627776 -> v1_batch_ok b ->
+  (s pi = None -> v1_read (mkV1 fd v1_idx_init) slot = RMissing) ->
+  In s' (b_crash_states s (v1_dir_idx_ops s pd pi sfx2 b)) -> 0 <= slot < SLOTS ->
+  v1_dir_read s' pd pi slot = v1_dir_read s pd pi slot \/
+  exists dd, has_data b slot dd = true /\ dd <> [] /\ v1_dir_read s' pd pi slot = RData dd.
+Proof.
+  intros s pd pi sfx2 b fd s' slot Hne Hti Hd Hwf Hlen Hb Hmiss Hin Hs.
+  unfold v1_dir_idx_ops in Hin. unfold v1_dir_read at 2.
+  destruct (s pi) as [fi|] eqn:Ei.
+  - rewrite Hd. eapply v1_dir_inplace_safe; eauto.
+  - assert (Ht : tmp_of pi sfx2 <> pi) by apply tmp_neq.
+    assert (Ht' : pi <> tmp_of pi sfx2) by (intros E; apply Ht; symmetry; exact E).
+    assert (Hti' : pd <> tmp_of pi sfx2) by (intros E; apply Hti; symmetry; exact E).
+    destruct (bd_exists s (tmp_of pi sfx2)).
+    + left. unfold v1_dir_read.
+      rewrite (b_crash_states_frame [BUnlink (tmp_of pi sfx2)] s s' pi); [rewrite Ei; reflexivity| |exact Hin].
+      cbn. intros [E|[]]. contradiction.
+    + apply b_crash_states_app in Hin.
+      assert (Hsecond : forall s2,
+                In s2 (b_crash_states (b_apply_all s (b_init_ops (tmp_of pi sfx2) pi v1_idx_init))
+                         (v1_dir_inplace_ops (b_apply_all s (b_init_ops (tmp_of pi sfx2) pi v1_idx_init)) pd pi b)) ->
+                v1_dir_read s2 pd pi slot = RMissing \/
+                exists dd, has_data b slot dd = true /\ dd <> [] /\ v1_dir_read s2 pd pi slot = RData dd).
+      { intros s2 H2. rewrite <- (Hmiss eq_refl).
+        eapply v1_dir_inplace_safe; [exact Hne| |apply b_init_target|exact Hwf|exact Hlen|exact Hb|exact H2|exact Hs].
+        rewrite b_init_other by assumption. exact Hd. }
+      destruct Hin as [Hin|Hin].
+      * apply b_init_states in Hin. destruct Hin as [Hin| ->].
+        -- left. unfold v1_dir_read. rewrite (Hin pi Ht'), Ei. reflexivity.
+        -- apply Hsecond. apply b_crash_states_head.
+      * apply Hsecond. exact Hin.
+Qed.
+
+Theorem v1_dir_store_crash_safe : forall s pd pi sfx1 sfx2 c r b s' slot,
+  pd <> pi -> tmp_of pd sfx1 <> pi -> tmp_of pi sfx2 <> pd ->
+  (s pd = None -> s pi = None) ->
+  v1_wf (v1_dir_eff s pd pi c r) ->
+  flen (v1dat (v1_dir_eff s pd pi c r)) + total_len b <= 1099511627776 -> v1_batch_ok b ->
+  (s pi = None -> v1_read (v1_dir_eff s pd pi c r) slot = RMissing) ->
+  In s' (b_crash_states s (v1_dir_store_ops s pd pi sfx1 sfx2 c r b)) -> 0 <= slot < SLOTS ->
+  v1_dir_read s' pd pi slot = v1_dir_read s pd pi slot \/
+  exists dd, has_data b slot dd = true /\ dd <> [] /\ v1_dir_read s' pd pi slot = RData dd.
+Proof.
+  intros s pd pi sfx1 sfx2 c r b s' slot Hne Htd Hti Hdi Hwf Hlen Hb Hmiss Hin Hs.
+  unfold v1_dir_store_ops in Hin. unfold v1_dir_eff in *. cbn [v1dat] in Hlen.
+  destruct (s pd) as [fd|] eqn:Ed.
+  - eapply v1_dir_idx_safe; eauto.
+    intros Ei. specialize (Hmiss Ei). rewrite Ei in Hmiss. exact Hmiss.
+  - assert (Ei : s pi = None) by (apply Hdi; reflexivity).
+    rewrite Ei in *. specialize (Hmiss eq_refl).
+    assert (Hold : v1_dir_read s pd pi slot = RMissing) by (unfold v1_dir_read; rewrite Ei; reflexivity).
+    rewrite Hold.
+    assert (Ht : tmp_of pd sfx1 <> pd) by apply tmp_neq.
+    assert (Htd' : pi <> tmp_of pd sfx1) by (intros E; apply Htd; symmetry; exact E).
+    assert (Hne' : pi <> pd) by (intros E; apply Hne; symmetry; exact E).
+    destruct (bd_exists s (tmp_of pd sfx1)).
+    + left. unfold v1_dir_read.
+      rewrite (b_crash_states_frame [BUnlink (tmp_of pd sfx1)] s s' pi); [rewrite Ei; reflexivity| |exact Hin].
+      cbn. intros [E|[]]. apply Htd. exact E.
+    + apply b_crash_states_app in Hin.
+      set (sA := b_apply_all s (b_init_ops (tmp_of pd sfx1) pd (v1_dat_init c r))) in *.
+      assert (HAd : sA pd = Some (v1_dat_init c r)) by apply b_init_target.
+      assert (HAi : sA pi = None) by (unfold sA; rewrite b_init_other by assumption; exact Ei).
+      assert (Hsecond : forall s2, In s2 (b_crash_states sA (v1_dir_idx_ops sA pd pi sfx2 b)) ->
+                v1_dir_read s2 pd pi slot = RMissing \/
+                exists dd, has_data b slot dd = true /\ dd <> [] /\ v1_dir_read s2 pd pi slot = RData dd).
+      { intros s2 H2.
+        assert (HoldA : v1_dir_read sA pd pi slot = RMissing) by (unfold v1_dir_read; rewrite HAi; reflexivity).
+        rewrite <- HoldA.
+        eapply v1_dir_idx_safe; [exact Hne|exact Hti|exact HAd| |exact Hlen|exact Hb| |exact H2|exact Hs].
+        - rewrite HAi. exact Hwf.
+        - intros _. exact Hmiss. }
+      destruct Hin as [Hin|Hin].
+      * apply b_init_states in Hin. destruct Hin as [Hin| ->].
+        -- left. unfold v1_dir_read. rewrite (Hin pi Htd'), Ei. reflexivity.
+        -- apply Hsecond. apply b_crash_states_head.
+      * apply Hsecond. exact Hin.
+Qed.
+
+(* a fresh bundle (neither file exists): only the batch has to fit *)
+Corollary v1_dir_store_crash_safe_fresh : forall s pd pi sfx1 sfx2 c r b s' slot,
+  pd <> pi -> tmp_of pd sfx1 <> pi -> tmp_of pi sfx2 <> pd ->
+  s pd = None -> s pi = None ->
+  V1_REC + total_len b <= 1099511627776 -> v1_batch_ok b ->
+  In s' (b_crash_states s (v1_dir_store_ops s pd pi sfx1 sfx2 c r b)) -> 0 <= slot < SLOTS ->
+  v1_dir_read s' pd pi slot = RMissing \/
+  exists dd, has_data b slot dd = true /\ dd <> [] /\ v1_dir_read s' pd pi slot = RData dd.
+Proof.
+  intros s pd pi sfx1 sfx2 c r b s' slot Hne Htd Hti Ed Ei Hlen Hb Hin Hs.
+  assert (Hold : v1_dir_read s pd pi slot = RMissing) by (unfold v1_dir_read; rewrite Ei; reflexivity).
+  rewrite <- Hold.
+  apply (v1_dir_store_crash_safe s pd pi sfx1 sfx2 c r b s' slot); auto;
+    unfold v1_dir_eff; rewrite Ed, Ei.
+  - apply v1_init_wf.
+  - exact Hlen.
+  - intros _. apply v1_init_read. exact Hs.
+Qed.
+
+Lemma v1_dir_inplace_touched : forall s pd pi b q,
+  In q (b_touched (v1_dir_inplace_ops s pd pi b)) -> q = pd \/ q = pi.
+Proof.
+  intros s pd pi b q H. unfold v1_dir_inplace_ops in H.
+  destruct (s pd); [|destruct H]. destruct (s pi); [|destruct H].
+  eapply b_touched_inplace_v1. exact H.
+Qed.
+
+Lemma b_init_touched : forall t p g q, In q (b_touched (b_init_ops t p g)) -> q = t \/ q = p.
+Proof.
+  intros t p g q H. cbn in H. destruct H as [E|[E|[E|[E|[]]]]]; auto.
+Qed.
+
+Lemma v1_dir_idx_touched : forall s pd pi sfx2 b q,
+  In q (b_touched (v1_dir_idx_ops s pd pi sfx2 b)) -> q = pd \/ q = pi \/ q = tmp_of pi sfx2.
+Proof.
+  intros s pd pi sfx2 b q H. unfold v1_dir_idx_ops in H. destruct (s pi).
+  - apply v1_dir_inplace_touched in H. tauto.
+  - destruct (bd_exists s (tmp_of pi sfx2)).
+    + cbn in H. destruct H as [E|[]]. auto.
+    + unfold b_touched in H. rewrite flat_map_app in H. apply in_app_or in H. destruct H as [H|H].
+      * apply b_init_touched in H. tauto.
+      * apply v1_dir_inplace_touched in H. tauto.
+Qed.
+
+Lemma v1_dir_store_touched : forall s pd pi sfx1 sfx2 c r b q,
+  In q (b_touched (v1_dir_store_ops s pd pi sfx1 sfx2 c r b)) ->
+  q = pd \/ q = pi \/ q = tmp_of pd sfx1 \/ q = tmp_of pi sfx2.
+Proof.
+  intros s pd pi sfx1 sfx2 c r b q H. unfold v1_dir_store_ops in H. destruct (s pd).
+  - apply v1_dir_idx_touched in H. tauto.
+  - destruct (bd_exists s (tmp_of pd sfx1)).
+    + cbn in H. destruct H as [E|[]]. auto.
+    + unfold b_touched in H. rewrite flat_map_app in H. apply in_app_or in H. destruct H as [H|H].
+      * apply b_init_touched in H. tauto.
+      * apply v1_dir_idx_touched in H. tauto.
+Qed.
+
+Theorem v1_dir_store_others : forall s pd pi sfx1 sfx2 c r b s' q,
+  In s' (b_crash_states s (v1_dir_store_ops s pd pi sfx1 sfx2 c r b)) ->
+  q <> pd -> q <> pi -> q <> tmp_of pd sfx1 -> q <> tmp_of pi sfx2 -> s' q = s q.
+Proof.
+  intros s pd pi sfx1 sfx2 c r b s' q Hin H1 H2 H3 H4.
+  eapply b_crash_states_frame; [|exact Hin].
+  intros H. apply v1_dir_store_touched in H. tauto.
+Qed.
+
+(* the completed call leaves a bundle that satisfies the invariant *)
+Lemma v1_dir_inplace_completes : forall s pd pi b fd fi,
+  pd <> pi -> s pd = Some fd -> s pi = Some fi ->
+  v1_wf (mkV1 fd fi) -> flen fd + total_len b <= 1099511627776 -> v1_batch_ok b ->
+  exists st, b_apply_all s (v1_dir_inplace_ops s pd pi b) pd = Some (v1dat st) /\
+             b_apply_all s (v1_dir_inplace_ops s pd pi b) pi = Some (v1idx st) /\ v1_wf st.
+Proof.
+  intros s pd pi b fd fi Hne Hd Hi Hwf Hlen Hb.
+  unfold v1_dir_inplace_ops. rewrite Hd, Hi.
+  exists (v1_apply_all (mkV1 fd fi) (v1_store_ops (mkV1 fd fi) b)).
+  destruct (b_inplace_apply_all_v1 (v1_store_ops (mkV1 fd fi) b) s pd pi fd fi Hne Hd Hi) as [A B].
+  split; [exact A|]. split; [exact B|]. apply v1_store_wf; assumption.
+Qed.
+
+Lemma v1_dir_idx_completes : forall s pd pi sfx2 b fd,
+  pd <> pi -> tmp_of pi sfx2 <> pd -> s pd = Some fd ->
+  v1_wf (mkV1 fd (match s pi with Some fi => fi | None => v1_idx_init end)) ->
+  flen fd + total_len b <= 1099511627776 -> v1_batch_ok b ->
+  (s pi = None -> bd_exists s (tmp_of pi sfx2) = false) ->
+  exists st, b_apply_all s (v1_dir_idx_ops s pd pi sfx2 b) pd = Some (v1dat st) /\
+             b_apply_all s (v1_dir_idx_ops s pd pi sfx2 b) pi = Some (v1idx st) /\ v1_wf st.
+Proof.
+  intros s pd pi sfx2 b fd Hne Hti Hd Hwf Hlen Hb Hex.
+  unfold v1_dir_idx_ops. destruct (s pi) as [fi|] eqn:Ei.
+  - eapply v1_dir_inplace_completes; eauto.
+  - rewrite (Hex eq_refl). rewrite b_apply_all_app.
+    assert (Hti' : pd <> tmp_of pi sfx2) by (intros E; apply Hti; symmetry; exact E).
+    eapply v1_dir_inplace_completes; [exact Hne| |apply b_init_target|exact Hwf|exact Hlen|exact Hb].
+    rewrite b_init_other by assumption. exact Hd.
+Qed.
+
+Theorem v1_dir_store_completes : forall s pd pi sfx1 sfx2 c r b,
+  pd <> pi -> tmp_of pd sfx1 <> pi -> tmp_of pi sfx2 <> pd ->
+  v1_wf (v1_dir_eff s pd pi c r) ->
+  flen (v1dat (v1_dir_eff s pd pi c r)) + total_len b <= 1099511627776 -> v1_batch_ok b ->
+  (s pd = None -> bd_exists s (tmp_of pd sfx1) = false) ->
+  (s pi = None -> bd_exists s (tmp_of pi sfx2) = false) ->
+  exists st, b_apply_all s (v1_dir_store_ops s pd pi sfx1 sfx2 c r b) pd = Some (v1dat st) /\
+             b_apply_all s (v1_dir_store_ops s pd pi sfx1 sfx2 c r b) pi = Some (v1idx st) /\ v1_wf st.
+Proof.
+  intros s pd pi sfx1 sfx2 c r b Hne Htd Hti Hwf Hlen Hb Hex1 Hex2.
+  unfold v1_dir_store_ops. unfold v1_dir_eff in *. cbn [v1dat] in Hlen.
+  destruct (s pd) as [fd|] eqn:Ed.
+  - eapply v1_dir_idx_completes; eauto.
+  - rewrite (Hex1 eq_refl). rewrite b_apply_all_app.
+    assert (Ht : tmp_of pd sfx1 <> pd) by apply tmp_neq.
+    assert (Htd' : pi <> tmp_of pd sfx1) by (intros E; apply Htd; symmetry; exact E).
+    assert (Hne' : pi <> pd) by (intros E; apply Hne; symmetry; exact E).
+    set (sA := b_apply_all s (b_init_ops (tmp_of pd sfx1) pd (v1_dat_init c r))).
+    assert (HAd : sA pd = Some (v1_dat_init c r)) by apply b_init_target.
+    assert (HAi : sA pi = s pi) by (unfold sA; rewrite b_init_other by assumption; reflexivity).
+    eapply v1_dir_idx_completes; [exact Hne|exact Hti|exact HAd| |exact Hlen|exact Hb|].
+    + rewrite HAi. exact Hwf.
+    + rewrite HAi. intros Ei. specialize (Hex2 Ei). unfold bd_exists in *.
+      destruct (path_eqb (tmp_of pi sfx2) (tmp_of pd sfx1)) eqn:E.
+      * apply path_eqb_eq in E. rewrite E. unfold sA. rewrite b_init_tmp_gone by exact Ht. reflexivity.
+      * assert (En : tmp_of pi sfx2 <> tmp_of pd sfx1)
+          by (intros H; apply path_eqb_eq in H; rewrite H in E; discriminate E).
+        unfold sA. rewrite b_init_other by assumption. exact Hex2.
+Qed.
+
+(* non-vacuity: an empty directory, one tile *)
+Definition ex_pd : path := [1; 2; 100].
+Definition ex_pi : path := [1; 2; 120].
+
+Example v1_dir_example :
+  ex_pd <> ex_pi /\ tmp_of ex_pd [49] <> ex_pi /\ tmp_of ex_pi [50] <> ex_pd /\
+  V1_REC + total_len ex_batch <= 1099511627776 /\ v1_batch_ok ex_batch /\
+  length (v1_dir_store_ops ex_dir ex_pd ex_pi [49] [50] 0 0 ex_batch) = 10%nat /\
+  In (b_apply_all ex_dir (v1_dir_store_ops ex_dir ex_pd ex_pi [49] [50] 0 0 ex_batch))
+     (b_crash_states ex_dir (v1_dir_store_ops ex_dir ex_pd ex_pi [49] [50] 0 0 ex_batch)) /\
+  v1_dir_read ex_dir ex_pd ex_pi 5 = RMissing /\
+  v1_dir_read (b_apply_all ex_dir (v1_dir_store_ops ex_dir ex_pd ex_pi [49] [50] 0 0 ex_batch)) ex_pd ex_pi 5
+    = RData [1; 2; 3] /\
+  v1_dir_read (b_apply_all ex_dir (v1_dir_store_ops ex_dir ex_pd ex_pi [49] [50] 0 0 ex_batch)) ex_pd ex_pi 6
+    = RMissing.
+Proof.
+  split; [discriminate|]. split; [discriminate|]. split; [discriminate|].
+  split; [vm_compute; discriminate|].
+  split.
+  { intros slot d [H|[]]. inversion H; subst. split; [unfold SLOTS; lia|].
+    split; [discriminate|]. vm_compute; reflexivity. }
+  split; [vm_compute; reflexivity|].
+  split; [apply b_crash_states_last|].
+  split; [reflexivity|].
+  split; vm_compute; reflexivity.
+Qed.
